@@ -4,6 +4,7 @@
  *   @io <mask> <n> <seed> <code>      if mask&4: read stdin to end-of-file; print `in=<count>:<crc32>\n` on stdout;
  *                                     if mask&1: write n pattern bytes (seed) to stdout; if mask&2: n pattern bytes
  *                                     (seed+1) to stderr; return <code>
+ *   @pause                            sleep until killed
  *   anything else                     echo: `argv <hex>...` and `env <hex>...` (the whole environment, in the order
  *                                     received) on stdout; return 42
  */
@@ -62,6 +63,11 @@ int main(int argc, char** argv)
 {
   if(argc > 2 && !strcmp(argv[1], "@exit"))
     return atoi(argv[2]);
+  if(argc > 1 && !strcmp(argv[1], "@pause"))
+  {
+    for(;;)
+      pause();
+  }
   if(argc > 5 && !strcmp(argv[1], "@io"))
   {
     unsigned mask = (unsigned)atoi(argv[2]);
